@@ -449,6 +449,9 @@ func cornerDocs(trig bool) []string {
 		"@prefix a: <http://e.example/> .\na:a a a:a .\na:a a:a a:a .",
 		"@prefix tr: <http://e.example/> . @prefix fals: <http://f.example/> .\n<a> <b> tr:ue , fals:e , true, false.",
 		"@prefix b: <http://e.example/> . @prefix p: <http://e.example/> .\nb:x b:y b:z . p:x p:y p:z . base:x <b> <c> . prefi:x <b> <c> .",
+		// errors raised after the offending rune was handed back (D45): multi-byte runes that are neither
+		// white space nor PN_CHARS_BASE, at the start of the document and later
+		"[]‰", "()‰", "[]\u2030x", "<s> .", "<s> ‰", "<s> <p> .x", "<s> <p> .‰", "<s> <p> <o> ‰", "<s> <p> <o> ; ‰", "[ ] ‰", "( ) ‰", "()\U0001F600", "[]\U0001F600",
 	}
 	if trig {
 		docs = append(docs,
@@ -460,6 +463,7 @@ func cornerDocs(trig bool) []string {
 			"<g> { ( ) <b> 1 . ( ) <b> 2 } ( ) <b> 3 . [ ] <b> 4 . [ <p> 1 ] . [ <p> 1 ] <q> 2 ; <r> 3 .",
 			"<g> {", "GRAPH", "GRAPH ", "GRAP", "GRAPHx", "GRAPH <g>", "GRAPH [ x", "GRAPH [", "GRAPH [ ]", "GRAPH <g> x", "<g> { <a> <b> <c> ", "<g> { <a> <b> <c> x", "<g> { <a> <b> <c> . x", "<g> x", "[ ] x", "[", "[ ", "{ <a> <b> <c> } }", "{ ( 1 ) <p> 2 . [ ] <p> 3 }",
 			"G", "g:x <b> <c> .", "<a> <b> <c> x",
+			"<g> ‰", "GRAPH <g> ‰", "<g> { <a> <b> <c> ‰", "<g> { <a> <b> <c> . ‰", "{ ‰", "{ <a> <b> <c> } ‰", "<g> { ‰",
 		)
 	}
 	return docs
